@@ -21,8 +21,9 @@
 #define FX_HEAD  (FX_T0 + 86400ULL * 60 + 9)    /* calendar head */
 
 enum { FXE_CORRECT = 0, FXE_OTHER_ROOT, FXE_OTHER_INPUT, FXE_OTHER_AGGR_TIME, FXE_RIGHT_ALTERED, FXE_ERROR_STATUS, FXE_ERROR_PDU, FXE_BAD_MAC,
-       FXE_WRONG_ID, FXE_NO_REPLY, FXE_NBEH };
-static const char *FXE_NAME[FXE_NBEH] = {"correct", "other-root", "other-input", "other-aggr-time", "right-altered", "error-status", "error-pdu", "bad-mac", "wrong-id", "no-reply"};
+       FXE_WRONG_ID, FXE_NO_REPLY, FXE_RIGHT_EXTRA, FXE_RIGHT_EXTRA_TOP, FXE_NBEH };
+static const char *FXE_NAME[FXE_NBEH] = {"correct", "other-root", "other-input", "other-aggr-time", "right-altered", "error-status", "error-pdu", "bad-mac", "wrong-id", "no-reply",
+                                         "right-extra", "right-extra-top"};
 
 typedef struct {
 	int ext_behaviour;
@@ -78,6 +79,19 @@ static void fx_handler(const unsigned char *req, size_t n, vbuf *resp, void *use
 		case FXE_OTHER_ROOT: for (i = 0; i < cal.ncal; i++) if (cal.cal[i].is_left) { cal.cal[i].sib[7] ^= 1; break; } break;   /* a later (left-link) sibling differs: same shape, other root */
 		case FXE_OTHER_INPUT: cal.cal_input[cal.cal_input_len - 1] ^= 1; break;
 		case FXE_RIGHT_ALTERED: for (i = 0; i < cal.ncal; i++) if (!cal.cal[i].is_left) { cal.cal[i].sib[9] ^= 1; break; } break;
+		case FXE_RIGHT_EXTRA: case FXE_RIGHT_EXTRA_TOP: {
+			/* all honest links are kept; one more right link follows the last right link (or the whole chain) */
+			int at = cal.ncal, j;
+			if (FXS.ext_behaviour == FXE_RIGHT_EXTRA) { at = 0; for (i = 0; i < cal.ncal; i++) if (!cal.cal[i].is_left) at = i + 1; }
+			if (cal.ncal < RS_MAXCAL && cal.ncal > 0) {
+				for (j = cal.ncal; j > at; j--) cal.cal[j] = cal.cal[j - 1];
+				cal.cal[at] = cal.cal[at > 0 ? at - 1 : 1];
+				cal.cal[at].is_left = 0;
+				cal.cal[at].sib[11] ^= 0x5a;
+				cal.ncal++;
+			}
+			break;
+		}
 		case FXE_BAD_MAC: e.flags |= RP_F_BAD_MAC; break;
 		case FXE_WRONG_ID: id += 7; break;
 		default: break;
@@ -101,7 +115,8 @@ static void fx_server_install(int ext_behaviour) {
 }
 
 /* signature of form 0..3 (no calendar / calendar / +publication / +auth record signed by `signer`);
- * broken = 1: chain index of the first chain altered (INT-10) without touching any hash */
+ * broken = 1: chain index of the first chain altered (INT-10) without touching any hash; broken = 2: calendar chain shape
+ * inconsistent with the aggregation time (internal verification inconclusive), everything after it recomputed */
 static void fx_make_sig(rsig *s, int form, int broken, const rk_cert *signer) {
 	rs_params p;
 	rs_default_params(&p);
@@ -109,8 +124,16 @@ static void fx_make_sig(rsig *s, int form, int broken, const rk_cert *signer) {
 	p.link_desc[0][0] = 0 | (3 << 3); p.link_desc[0][1] = 1 | (1 << 1); p.link_desc[1][0] = 1;
 	p.aggr_time = FX_T0; p.pub_time = FX_P0; p.tail = form;
 	rs_build(s, &p);
+	if (broken == 2 && form >= 1) {
+		/* the lowest right link of the calendar chain is missing: the shape no longer reproduces the aggregation time (INT-05,
+		 * inconclusive); the record after the chain is recomputed (and signed), so that nothing else is wrong */
+		int i, j;
+		for (i = 0; i < s->ncal; i++) if (!s->cal[i].is_left) break;
+		if (i < s->ncal) { for (j = i; j + 1 < s->ncal; j++) s->cal[j] = s->cal[j + 1]; s->ncal--; }
+		if (rs_fix(s, RS_FIX_TAIL) != 0) vf_harness_error("fx_make_sig: broken calendar shape");
+	}
 	if (form == 3 && signer) rk_sign_auth_record(s, signer);
-	if (broken) s->ch[0].index[s->ch[0].nindex - 1] ^= 1;
+	if (broken == 1 || (broken == 2 && form == 0)) s->ch[0].index[s->ch[0].nindex - 1] ^= 1;
 }
 
 /* publications file with the given publications (time, hash) and certificates, signed by the good signer */
